@@ -7,6 +7,16 @@ Streams
             (a) correspondence: equal to the Lean `readAll` on the same lines,
             (b) property oracle: squeeze(items) == squeeze(token sequences), docs exact.
   junk    : random lines over a small alphabet, model vs implementation incl. error kinds.
+  program : generated modules with character literals wherever FORD keeps or interprets statement
+            text (initial values, bind names, call arguments, conditions) ->
+            (a) the layout stream's checks on a random layout of the program,
+            (b) property oracle on `FortranSourceFile`: the entity tree of the random layout equals
+                that of the one-statement-per-line layout; it equals the tree of the same program
+                with neutral literals once the literals are put back (literal contents are never
+                syntax); every initial value / bind name is the source text, literals verbatim.
+
+The statement oracle compares *lexical tokens* (c02prog.lex): blanks between tokens are free,
+a blank inside a token (a name, number or operator continued with `&` ... `&`) is a difference.
 """
 from __future__ import annotations
 
@@ -16,12 +26,15 @@ from pathlib import Path
 
 from . import common
 from .common import Driver, Report, lean_prove
+from . import c02prog as PG
+from .c02prog import lex, needs_sep, atoms_of, squeeze
 
 PROP = "C02"
 MARKS = ("!", ">", "*", "|")
 
-CODE = ["x", "=", "y1", "+", "call f", "(", ")", ",", "print *,", "1.0e0", "if (a) b", "end do", "//", "z%w", ":", "include_", "then"]
-LITBODY = ["a", " ", "!", ";", "&", "OTHER", "DOUBLED", "!!", "!>", "call g()", "", "  ", "'", "b c"]
+CODE = ["x", "=", "y1", "+", "call f", "(", ")", ",", "print *,", "1.0e0", "if (a) b", "end do", "//", "z%w", ":", "include_", "then",
+        "big_number", "123456", "1.5e3", "**", "=>", "==", ".and.", "compute_totals", "total_count", "::", "integer", "/=", "subroutine"]
+LITBODY = ["a", " ", "!", ";", "&", "OTHER", "DOUBLED", "!!", "!>", "call g()", "", "  ", "'", "b c", ",", "x,y"]
 
 
 def lit(q, pieces):
@@ -31,6 +44,7 @@ def lit(q, pieces):
 
 
 def gen_stmt(rng, maxtok=5):
+    """A statement as a list of lexical tokens ('code', t) / ('lit', t)."""
     n = rng.randint(1, maxtok)
     toks = []
     for k in range(n):
@@ -38,9 +52,7 @@ def gen_stmt(rng, maxtok=5):
             q = rng.choice("'\"")
             toks.append(lit(q, [rng.choice(LITBODY) for _ in range(rng.randint(0, 4))]))
         else:
-            toks.append(("code", rng.choice(CODE)))
-    if toks[0][0] == "code" and toks[0][1] in ("&",):
-        toks[0] = ("code", "x")
+            toks.extend(atoms_of(rng.choice(CODE)))
     return toks
 
 
@@ -48,15 +60,26 @@ COMMENTS = ["! c", "!c 'q", "! it's; &", "!", "!  \"", "!x !! not doc"]
 DOCS = ["!! doc", "!! it's a doc; with & and 'q", "!!d2", "!! see \"x"]
 
 
-def render(rng, stmts, feat):
-    """Render statements into physical lines with a random legal layout.
-    Returns (lines, expected_items) where expected_items is the list of
-    ('stmt', squeezed_text) / ('doc', text).  `feat` collects layout features."""
+def render(rng, stmts, feat, docs=None, safe=False):
+    """Render statements (lists of lexical tokens) into physical lines with a random legal
+    layout.  Returns (lines, expected) where expected is the list of ('stmt', [token texts]) /
+    ('doc', text) in reading order.  `feat` collects layout features.
+    `docs` = None: doc comments are placed at random; otherwise docs[i] is the list of doc lines
+    that belong to statement i (placed inline or on the following lines) and no others appear.
+    `safe`: do not produce the layouts of the known finding C02-comment-while-literal-continued
+    (no comment line inside, and no comment / doc behind, a literal continued across lines), so
+    that no failure on this case can be excused by that class.
+
+    Layout rules (Fortran free form): tokens on one line are separated by any number of blanks
+    (at least one when the two would otherwise read as one token); a statement is continued by
+    a trailing `&` (then optional comment), any number of blank / comment / `&`-only lines, and
+    a next line with or without a leading `&`; a *token* (name, number, operator, literal) may
+    be continued only in the `&` ... `&` form, the pieces being joined directly."""
     lines = []
     expected = []
     cur = rng.choice(["", "  ", "\t", "    "])
     pending_docs = []
-    first_on_line = True
+    inlit_open = False  # the current physical line began inside a continued literal
 
     def interleave(inlit):
         k = rng.choice([0, 0, 0, 1, 2])
@@ -65,21 +88,42 @@ def render(rng, stmts, feat):
             if r < 0.4:
                 lines.append(rng.choice(["", "   "]))
                 feat.add("blank-in-cont")
-            elif r < 0.8:
+            elif r < 0.8 and not (safe and inlit):
                 lines.append(rng.choice(["", "  "]) + rng.choice(COMMENTS))
                 feat.add("comment-in-cont-lit" if inlit else "comment-in-cont")
             else:
                 lines.append(rng.choice(["&", "  &  "]))
                 feat.add("amp-only-line")
 
-    def endline(allow_doc=True):
+    def break_line(inlit, before=""):
+        """end the physical line with `&` (+ optional comment) and emit in-between lines"""
+        nonlocal cur, inlit_open
+        cur += before + "&"
+        if not inlit and rng.random() < 0.3 and not (safe and inlit_open):
+            cur += rng.choice([" ", ""]) + rng.choice(COMMENTS)
+            feat.add("comment-after-amp")
+            if inlit_open:
+                feat.add("comment-on-lit-closing-line")
+        lines.append(cur)
+        inlit_open = False
+        interleave(inlit)
+        cur = rng.choice(["", "  ", "      "])
+
+    def endline(own_docs):
         nonlocal cur
         r = rng.random()
+        if safe and inlit_open:
+            r = 1.0
         if r < 0.25:
             cur += rng.choice([" ", ""]) + rng.choice(COMMENTS)
             feat.add("trailing-comment")
-        elif r < 0.45 and allow_doc:
+        elif own_docs is None and r < 0.45:
             d = rng.choice(DOCS)
+            cur += rng.choice([" ", ""]) + d
+            pending_docs.append(d)
+            feat.add("inline-doc")
+        elif own_docs and r < 0.6:
+            d = own_docs.pop(0)
             cur += rng.choice([" ", ""]) + d
             pending_docs.append(d)
             feat.add("inline-doc")
@@ -91,40 +135,34 @@ def render(rng, stmts, feat):
             expected.append(("doc", d))
         pending_docs.clear()
 
-    inlit_open = False  # the current physical line began inside a continued literal
     for si, toks in enumerate(stmts):
-        text = ""
         for ti, (kind, t) in enumerate(toks):
             if ti > 0:
+                need = needs_sep(toks[ti - 1][1], t)
                 r = rng.random()
-                if r < 0.35:
-                    cur += rng.choice(["", " ", "  "])
-                elif r < 0.5:
-                    cur += " "
+                if r < 0.5:
+                    cur += rng.choice([" ", "  "] if need else ["", " ", "  ", " "])
                 else:
                     # continuation break between tokens
-                    cur += rng.choice(["", " "]) + "&"
-                    if rng.random() < 0.3:
-                        cur += " " + rng.choice(COMMENTS)
-                        feat.add("comment-after-amp")
-                        if inlit_open:
-                            feat.add("comment-on-lit-closing-line")
-                    lines.append(cur)
-                    inlit_open = False
-                    interleave(False)
-                    cur = rng.choice(["", "  ", "      "])
-                    if rng.random() < 0.5:
-                        cur += "&" + rng.choice(["", " "])
+                    tb = rng.choice(["", " "])
+                    lead = rng.random() < 0.5
+                    lb = rng.choice(["", " "]) if lead else ""
+                    if lead and need and tb == "" and lb == "":
+                        # `a&` / `&b` joins directly: the separating blank must be written
+                        if rng.random() < 0.5:
+                            tb = " "
+                        else:
+                            lb = " "
+                    break_line(False, tb)
+                    if lead:
+                        cur += "&" + lb
                         feat.add("leading-amp")
                     else:
                         feat.add("no-leading-amp")
                     feat.add("break")
             if kind == "lit" and len(t) > 2 and rng.random() < 0.3:
-                # break inside the literal body (not splitting a doubled quote)
+                # break inside the literal body (never between the two characters of a doubled quote)
                 q = t[0]
-                cands = [i for i in range(1, len(t)) if not (t[i - 1] == q and t[i] == q and 1 < i < len(t) - 0) or i == 1]
-                cands = [i for i in cands if 1 <= i <= len(t) - 1]
-                # never split between the two characters of a doubled quote
                 body_idx = []
                 i = 1
                 while i < len(t) - 1:
@@ -135,38 +173,48 @@ def render(rng, stmts, feat):
                         i += 1
                 body_idx.append(len(t) - 1)
                 pos = rng.choice(body_idx)
-                cur += t[:pos] + "&"
-                lines.append(cur)
-                interleave(True)
+                cur += t[:pos]
+                break_line(True)
                 cur = rng.choice(["", "   "]) + "&" + t[pos:]
                 inlit_open = True
                 feat.add("break-in-literal")
                 if t[:pos].endswith(" "):
                     feat.add("blank-before-amp-in-literal")
+            elif kind == "code" and len(t) >= 2 and rng.random() < 0.22:
+                # break inside a token: `&` ... `&`, pieces joined directly
+                pos = rng.randint(1, len(t) - 1)
+                cur += t[:pos]
+                break_line(False)
+                cur += "&" + t[pos:]
+                feat.add("break-in-token")
             else:
                 cur += t
-            text += t if kind == "lit" else t.replace(" ", "")
-        expected.append(("stmt", text))
+        expected.append(("stmt", [t for _, t in toks]))
+        own = None if docs is None else list(docs[si])
         # statement separator
         last = si == len(stmts) - 1
-        if not last and rng.random() < 0.35:
+        if not last and not own and rng.random() < 0.35:
             cur += rng.choice(["", " "]) + ";" + rng.choice(["", " "])
             feat.add("semicolon")
             continue
         # end of physical line
         before = len(cur)
         had_lit_open = inlit_open
-        endline()
+        endline(own)
         if had_lit_open and ("!" in lines[-1][before:]):
             feat.add("comment-on-lit-closing-line")
         inlit_open = False
         flush_docs()
+        for d in own or []:
+            lines.append(rng.choice(["", "  "]) + d)
+            expected.append(("doc", d))
+            feat.add("doc-line")
         # lines between statements
         for _ in range(rng.choice([0, 0, 1, 2])):
             r = rng.random()
             if r < 0.4:
                 lines.append(rng.choice(["", "  "]))
-            elif r < 0.8:
+            elif r < 0.8 or docs is not None:
                 lines.append(rng.choice(["", " "]) + rng.choice(COMMENTS))
                 feat.add("comment-line")
             else:
@@ -175,26 +223,6 @@ def render(rng, stmts, feat):
                 expected.append(("doc", d))
                 feat.add("doc-line")
     return lines, expected
-
-
-def squeeze(s: str) -> str:
-    """Remove blanks outside character literals."""
-    out = []
-    q = None
-    for c in s:
-        if q is None:
-            if c in "'\"":
-                q = c
-                out.append(c)
-            elif c in " \t":
-                continue
-            else:
-                out.append(c)
-        else:
-            out.append(c)
-            if c == q:
-                q = None
-    return "".join(out)
 
 
 def impl_read(ford, path: Path):
@@ -222,19 +250,24 @@ def impl_read(ford, path: Path):
 
 
 def oracle(expected, items):
-    """Property oracle: None when the items are what Fortran's lexical rules give."""
+    """Property oracle: None when the items are what Fortran's lexical rules give: the same
+    statements token for token (literals verbatim), the same doc lines."""
     if items[0] != "ok":
         return f"reader raised {items[1]}"
     got = [i for i in items[1] if i != "!!"]  # empty doc lines emitted for blank lines
     exp = []
     for kind, t in expected:
-        exp.append(squeeze(t) if kind == "stmt" else t.rstrip())
+        exp.append("".join(t) if kind == "stmt" else t.rstrip())
     # doc lines keep their text verbatim (trailing blanks are not significant)
     g2 = [g.rstrip() if g.startswith("!!") else squeeze(g) for g in got]
     if g2 != exp:
         for k, (a, b) in enumerate(itertools.zip_longest(exp, g2)):
             if a != b:
                 return f"item {k}: expected {a!r} got {b!r}"
+    # the non-blank characters agree; now the token boundaries
+    for k, ((kind, t), g) in enumerate(zip(expected, got)):
+        if kind == "stmt" and lex(g) != t:
+            return f"item {k}: expected tokens {t!r} got {lex(g)!r} (statement {g!r})"
     return None
 
 
@@ -274,9 +307,91 @@ def micro_streams(ford, drv, rng, n, rep):
     return len(reqs), bad
 
 
+def parse_tree(path: Path, record=None):
+    """('ok', observation of FortranSourceFile(path)) or ('err', text).  With `record` (a list)
+    every call of `line_to_variables` is logged as (masked statement, strings, result)."""
+    import ford.sourceform as sf
+    from ford.settings import ProjectSettings
+
+    orig = sf.line_to_variables
+
+    def wrap(source, line, perm, parent):
+        strings = list(parent.strings)
+        try:
+            vs = orig(source, line, perm, parent)
+        except Exception as e:
+            record.append((line, strings, ("err", type(e).__name__)))
+            raise
+        record.append((line, strings, ("ok", [(v.name, v.initial) for v in vs])))
+        return vs
+
+    try:
+        if hasattr(sf, "NameSelector"):
+            sf.namelist = sf.NameSelector()
+        if record is not None:
+            sf.line_to_variables = wrap
+        with common.quiet():
+            f = sf.FortranSourceFile(str(path), ProjectSettings())
+        return ("ok", PG.observe(f))
+    except Exception as e:  # the exception is the observation
+        return ("err", f"{type(e).__name__}: {e}"[:300])
+    finally:
+        sf.line_to_variables = orig
+
+
+def tree_oracle(d: Path, prog, lines, decl_log):
+    """Property oracle on the parser's entity tree.  Returns a list of (relation, why).
+    `decl_log` collects (statement text, masked statement, strings, result) of the program's
+    declaration statements for the correspondence with the Lean model."""
+    out = []
+    rec = []
+    (d / "pa.f90").write_text("".join(l + "\n" for l in PG.canonical_lines(prog.stmts)))
+    (d / "pb.f90").write_text("".join(l + "\n" for l in lines))
+    neutral, lits = PG.neutralise(prog.stmts)
+    (d / "pn.f90").write_text("".join(l + "\n" for l in PG.canonical_lines(neutral)))
+    ta, tb, tn = parse_tree(d / "pa.f90", rec), parse_tree(d / "pb.f90"), parse_tree(d / "pn.f90")
+    canon = PG.canonical_lines([dict(st, docs=[]) for st in prog.stmts])
+    for masked, strings, res in rec:
+        if res[0] == "ok" and res[1] and res[1][0][0] in prog.decls:
+            decl_log.append((canon[prog.decls[res[1][0][0]]], masked, strings, res[1]))
+    if tn[0] != "ok":
+        # the generator's skeleton must be parseable whatever the literals are
+        raise common.Infra(f"C02 program generator: neutral program rejected by the parser: {tn[1]}")
+    # literal contents are never syntax, literal text is kept verbatim
+    if ta[0] != "ok":
+        out.append(("literal-contents", f"parser raised {ta[1]} (not with neutral literals)"))
+    else:
+        why = PG.diff(PG.substitute(tn[1], lits), ta[1])
+        if why:
+            out.append(("literal-contents", "entity tree is not that of the program with neutral literals, literals put back: " + why))
+        vars_ = PG.find_vars(ta[1])
+        for key, e in prog.inits.items():
+            want = squeeze(" ".join(t for _, t in e))
+            if vars_.get(key) != want:
+                out.append(("literal-verbatim", f"initial value of {key[1]} in {key[0]}: source {want!r} recorded {vars_.get(key)!r}"))
+                break
+        binds = PG.find_binds(ta[1])
+        for nm, e in prog.binds.items():
+            want = squeeze(" ".join(t for _, t in e))
+            if binds.get(nm) != want:
+                out.append(("literal-verbatim", f"bind text of {nm}: source {want!r} recorded {binds.get(nm)!r}"))
+                break
+    # the layout never matters
+    if ta[0] == "ok":
+        if tb[0] != "ok":
+            out.append(("layout", f"parser raised {tb[1]} on the re-laid-out program"))
+        else:
+            why = PG.diff(ta[1], tb[1])
+            if why:
+                out.append(("layout", "entity tree differs between two layouts: " + why))
+    return out
+
+
 def run(tier: str, seed: int, replay: str | None = None) -> int:
     rep = Report(PROP, tier, seed)
-    lean = lean_prove(PROP, thorough=(tier == "thorough"))
+    from translate import c02 as tr
+
+    lean = lean_prove(PROP, translate=tr.translate, thorough=(tier == "thorough"))
     for b in lean.broken():
         rep.tie_broken("proof: " + b)
     ford = common.import_ford()
@@ -285,34 +400,46 @@ def run(tier: str, seed: int, replay: str | None = None) -> int:
     n_micro = 4000 if tier == "quick" else 40000
     n_layout = 3000 if tier == "quick" else 40000
     n_junk = 1500 if tier == "quick" else 15000
+    n_prog = 300 if tier == "quick" else 4000
     ev_micro, bad_micro = micro_streams(ford, drv, rng, n_micro, rep)
 
     feats_hist: dict[str, int] = {}
+    prog_hist = {"programs": 0, "statements": 0, "literals": 0, "literals_with_comma": 0, "initial_values": 0,
+                 "bind_names": 0, "trees_compared": 0, "skipped_known_layout": 0}
     distinct = set()
     samples = []
     n_bad_corr = 0
     n_oracle_fail = 0
     cases = []
+    decl_log = []
     with common.scratch_dir() as d:
         # ---------------- layout stream
         for k in range(n_layout):
             nst = rng.randint(1, 3 if k % 5 else 6)
             stmts = [gen_stmt(rng, 5 if k % 7 else 9) for _ in range(nst)]
             feat: set[str] = set()
-            lines, expected = render(rng, stmts, feat)
-            cases.append((lines, expected, feat))
-        reqs = [["read", *MARKS, *lines] for lines, _, _ in cases]
+            lines, expected = render(rng, stmts, feat, safe=(k % 2 == 1))
+            cases.append((lines, expected, feat, None))
+        # ---------------- program stream: the same checks on a random layout of a whole module ...
+        for k in range(n_prog):
+            prog = PG.gen_program(rng, k)
+            feat = set()
+            lines, expected = render(rng, [st["atoms"] for st in prog.stmts], feat, docs=[st["docs"] for st in prog.stmts],
+                                     safe=(k % 4 != 0))
+            cases.append((lines, expected, feat, prog))
+        reqs = [["read", *MARKS, *lines] for lines, _, _, _ in cases]
         model = drv.batch(reqs)
-        for k, ((lines, expected, feat), mo) in enumerate(zip(cases, model)):
+        for k, ((lines, expected, feat, prog), mo) in enumerate(zip(cases, model)):
+            stream = "layout" if prog is None else "program"
             p = d / f"c{k % 64}.f90"
             p.write_text("".join(l + "\n" for l in lines))
             im = impl_read(ford, p)
             for f in feat:
                 feats_hist[f] = feats_hist.get(f, 0) + 1
             key = common.digest(lines)
-            if feat & {"break", "break-in-literal", "semicolon", "inline-doc"}:
+            if feat & {"break", "break-in-literal", "break-in-token", "semicolon", "inline-doc"}:
                 distinct.add(key)
-            if len(samples) < 3 and "break-in-literal" in feat:
+            if len(samples) < 3 and "break-in-literal" in feat and "break-in-token" in feat and prog is None:
                 samples.append({"lines": lines, "items": im[1]})
             mo_t = (mo[0], mo[1:])
             if (im[0], list(im[1])) != (mo_t[0], list(mo_t[1])):
@@ -320,14 +447,53 @@ def run(tier: str, seed: int, replay: str | None = None) -> int:
                 # the model is the repaired reading; a known defect class explains the difference
                 if cls is None:
                     n_bad_corr += 1
-                    rep.tie_broken(f"correspondence layout: model and implementation differ on case {k}",
-                                   {"stream": "layout", "lines": lines, "impl": im, "model": mo})
+                    rep.tie_broken(f"correspondence {stream}: model and implementation differ on case {k}",
+                                   {"stream": stream, "lines": lines, "impl": im, "model": mo})
             why = oracle(expected, im)
             if why is not None:
                 n_oracle_fail += 1
-                rep.failing_input({"stream": "layout", "lines": lines, "expected": expected,
+                rep.failing_input({"stream": stream, "lines": lines, "expected": expected,
                                    "observed": im, "why": why, "features": sorted(feat)},
                                   classify(feat, lines))
+            if prog is None:
+                continue
+            # ... and the parser's entity tree
+            prog_hist["programs"] += 1
+            prog_hist["statements"] += len(prog.stmts)
+            lits = [t for st in prog.stmts for kind, t in st["atoms"] if kind == "lit"]
+            prog_hist["literals"] += len(lits)
+            prog_hist["literals_with_comma"] += sum("," in t for t in lits)
+            prog_hist["initial_values"] += len(prog.inits)
+            prog_hist["bind_names"] += len(prog.binds)
+            if why is not None and classify(feat, lines) is not None:
+                # the statements of this layout are already wrong for a listed reason
+                prog_hist["skipped_known_layout"] += 1
+                lines_for_tree = PG.canonical_lines(prog.stmts)
+            else:
+                lines_for_tree = lines
+            prog_hist["trees_compared"] += 1
+            for rel, twhy in tree_oracle(d, prog, lines_for_tree, decl_log):
+                n_oracle_fail += 1
+                rep.failing_input({"stream": "program", "relation": rel, "why": twhy,
+                                   "canonical_lines": PG.canonical_lines(prog.stmts),
+                                   "lines": lines_for_tree, "features": sorted(feat)},
+                                  classify(feat, lines) if rel == "layout" else None)
+        # ---------------- declarations of the programs: masking pass and initial values, model vs implementation
+        dreqs, dexp = [], []
+        for text, masked, strings, res in decl_log:
+            dreqs.append(["c02.cut", text])
+            dexp.append(["ok", masked, *strings])
+            dreqs.append(["c02.decl", text])
+            e = ["ok"]
+            for nm, ini in res:
+                e += [nm, "N" if ini is None else "S" + ini]
+            dexp.append(e)
+        for r, e, g in zip(dreqs, dexp, drv.batch(dreqs)):
+            if e != g:
+                n_bad_corr += 1
+                rep.tie_broken(f"correspondence {r[0]}: model {g!r} vs implementation {e!r} on {r[1]!r}",
+                               {"stream": "program/" + r[0], "statement": r[1], "impl": e, "model": g})
+        prog_hist["declarations_model_vs_impl"] = len(decl_log)
         # ---------------- junk stream (model vs implementation only)
         alpha = ["a", " ", "'", '"', "!", "&", ";", ">", "|", "*", "#", "!!", "!>", "!*", "!|", "x = 1"]
         jcases = []
@@ -348,18 +514,23 @@ def run(tier: str, seed: int, replay: str | None = None) -> int:
                                {"stream": "junk", "lines": jl, "impl": im, "model": mo})
     drv.close()
     rep.coverage.update(
-        evaluations=ev_micro + len(cases) + len(jcases),
+        evaluations=ev_micro + len(cases) + len(jcases) + 3 * prog_hist["trees_compared"],
         distinct_nontrivial=len(distinct),
-        rule="layout cases are (token sequences x random legal layout); non-trivial = has a continuation break, "
-             "a break inside a literal, a ';' separator or an inline doc; distinct by digest of the physical lines",
+        rule="layout cases are (lexical token sequences x random legal layout); non-trivial = has a continuation break "
+             "(between tokens, inside a literal or inside a token), a ';' separator or an inline doc; distinct by digest "
+             "of the physical lines; program cases are generated modules x random layout, parsed three times "
+             "(one statement per line, random layout, neutral literals)",
         samples=samples,
-        traces_validated_against_impl=len(cases) + len(jcases) + ev_micro,
+        traces_validated_against_impl=len(cases) + len(jcases) + ev_micro + 2 * len(decl_log),
         correspondence_disagreements=n_bad_corr + bad_micro,
         oracle_failures=n_oracle_fail,
         layout_feature_histogram=dict(sorted(feats_hist.items())),
+        program_stream=prog_hist,
     )
     rep.assumptions += [
         "include expansion, preprocessor and text decoding are not modelled",
         "regex engine (CPython re) is on the implementation side only; comScan is its deterministic reading, validated on the micro stream",
+        "the statement oracle's tokenizer (c02prog.lex) is the harness's reading of Fortran's free-form lexical rules: "
+        "literals, runs of [A-Za-z0-9_.], the two-character operators, single characters",
     ]
     return rep.finish(lean)
